@@ -22,10 +22,14 @@ META = {
             "Monitors on the real classes check the property text directly, including Shared/Swiss resources under real "
             "threads created while others allocate.",
     "note": "Shared/Swiss variants: c06_shared_disjoint proves cross-thread disjointness for per-thread exclusive "
-            "resources over shared allocators under every interleaving incl. thread creation; the thread->resource map "
-            "(EnumerableThreadLocal) and release of all per-thread resources are covered by monitors over real threads "
-            "only (recording thread-safe allocators, disjointness/ownership/contents/release exactness checked after "
-            "joins; no schedule enumeration).  Contents stability is proved as 'every store of the resource is inside a "
+            "resources over shared allocators under every interleaving incl. thread creation; c06_shared_release_order / "
+            "_exact prove that the shared release (two loops, structure regenerated from the source) runs every "
+            "destructor of every sub-resource before any page / oversize block goes back, each exactly once.  The "
+            "thread->resource map (EnumerableThreadLocal) is covered by monitors over real threads only (recording "
+            "thread-safe allocators with a global free counter: no deallocation may precede any destructor call during "
+            "release; watcher destructors registered in one thread's sub-resource check a canary block of another "
+            "thread's sub-resource in a ring; disjointness/ownership/contents/release exactness checked after joins; "
+            "no schedule enumeration).  Contents stability is proved as 'every store of the resource is inside a "
             "bookkeeping array, and those are disjoint from live blocks' (the model has no byte memory).  Move: both "
             "move-assignment into a prepared target and move-construction are operations of the model and of every "
             "theorem; that operator=(&&) swaps _upstream is read off the source by the translator "
